@@ -19,6 +19,7 @@ type XN struct {
 	Pfx        string
 	Local      string
 	Decls      [][2]string // prefix ("" = default), uri
+	XmlDecl    bool        // also write the (legal, redundant) declaration of the prefix xml, AFTER the others: the data model is the same
 	Attrs      [][3]string // prefix ("" = none), local, value
 	Kids       []XN
 	Segs       []string // text segments
@@ -77,6 +78,10 @@ func (g *xmlGen) elem(depth int, scope map[string]string) XN {
 		} else {
 			sc[p] = u
 		}
+	}
+	if len(n.Decls) > 0 && r.Chance(1, 5) {
+		// the legal, redundant declaration of the prefix xml, written AFTER another declaration
+		n.Decls = append(n.Decls, [2]string{"xml", XmlNsUri})
 	}
 	// element prefix: one that is in scope
 	var prefs []string
